@@ -125,6 +125,7 @@ def run(ctx):
                 ("norun", "~run-mode: no-run :~ "), ("noprint", "~print-mode: no-default :~ "), ("fields", None),
                 ("keepnomatch", "~ unmatched-mode: keep return-mode: no-matches :~ "),
                 # the same two, collected into a list the caller supplies: collect(lines=[...]) is what CsvPaths.collect_paths calls
+                ("nokeep", "~unmatched-mode: no-keep :~ "), ("nokeep2", "~ return-mode: matches unmatched-mode: no-keep print-mode: default :~ "),
                 ("keep_sink", "~unmatched-mode: keep :~ "), ("keepnomatch_sink", "~ unmatched-mode: keep return-mode: no-matches :~ ")]
     jobs, index = [], []
     for pi, (pr, rows, fname) in enumerate(progs):
@@ -176,6 +177,11 @@ def run(ctx):
                 fails.append({"kind": "collect(lines=<the caller's list>) does not keep the lines and unmatched lines collect() keeps (the partition is lost when a CsvPaths supplies the list)",
                               "csvpath": d[vn][0]["text"], "rows": rows, "collect": {"lines": k["ret"], "unmatched": k["unmatched"]},
                               "collect_into_given_list": {"lines": ks["ret"], "unmatched": ks["unmatched"]}})
+        for vn in ("nokeep", "nokeep2"):
+            k = d[vn][1]
+            if k["ret"] != plain["ret"] or obs_key(k) != obs_key(plain) or k["unmatched"] or k["unm_avail"]:
+                fails.append({"kind": "unmatched-mode: no-keep does not behave as the default (no unmatched lines are kept, nothing else changes)", "csvpath": d[vn][0]["text"], "rows": rows,
+                              "unmatched_available": k["unm_avail"], "unmatched": k["unmatched"], "lines": k["ret"], "plain_lines": plain["ret"]})
         nr = d["norun"][1]
         if nr["exc"] or nr["ret"] or nr["calls"] or nr["scan_count"] or nr["vars"] != "{}" or nr["printouts"]:
             fails.append({"kind": "run-mode no-run did something", "csvpath": d["norun"][0]["text"], "rows": rows, "impl": {k: nr[k] for k in ("exc", "ret", "scan_count", "vars", "printouts")}})
